@@ -80,8 +80,12 @@ func (e *Enc) callCommon(fr *Frame, st *State, cc *ssa.CallCommon, fnv *Val, arg
 		}
 		return e.callStatic(fr, st, fn, binds, args, rt, hint, pos)
 	}
-	// dynamic function value
-	return e.defaultCall(fr, st, "dyncall:"+typeStr(cc.Value.Type()), args, rt, hint, pos)
+	// dynamic function value: a contract may be attached to its named function type
+	dk := "dyncall:" + typeStr(cc.Value.Type())
+	if c, ok := e.DB.Contracts[dk]; ok && c.callable() {
+		return e.applyContract(fr, st, c, args, rt, hint, pos)
+	}
+	return e.defaultCall(fr, st, dk, args, rt, hint, pos)
 }
 
 func (c *Contract) callable() bool {
@@ -314,11 +318,14 @@ func (e *Enc) applyContract(fr *Frame, st *State, c *Contract, args []*Val, rt t
 			e.assumedUsed[c.Key]++
 		}
 	}
-	sig := c.Obj.Type().(*types.Signature)
+	sig := c.Sig
 	vars := e.bindParams(c, args, sig)
-	short := c.Obj.Name()
-	if sig.Recv() != nil {
-		short = recvShort(sig.Recv().Type()) + "." + short
+	short := c.funcType
+	if c.Obj != nil {
+		short = c.Obj.Name()
+		if sig.Recv() != nil {
+			short = recvShort(sig.Recv().Type()) + "." + short
+		}
 	}
 	siteName := e.site(fr, "call:"+short, pos)
 	env := &Env{e: e, vars: vars, st: st, old: st, pkgPath: c.PkgPath, imports: c.Imports, fr: nil}
@@ -597,8 +604,10 @@ func (e *Enc) encAppend(fr *Frame, st *State, cc *ssa.CallCommon, args []*Val, r
 	e.assert("(and (>= " + ncap + " " + nlen + ") " + implies(fits, eq(ncap, cp)) + ")")
 	nbase := ite(fits, base, fresh)
 	noff := ite(fits, off, "0")
-	nb := e.define(hint+"!base", "Int", nbase)
-	no := e.define(hint+"!off", "Int", noff)
+	nb := e.fresh(hint+"!base", "Int")
+	e.assert(eq(nb, nbase))
+	no := e.fresh(hint+"!off", "Int")
+	e.assert(eq(no, noff))
 	keys, sorts, esorts := e.sliceHeaps(st, sl.Elem())
 	for i, k := range keys {
 		h := st.heap[k]
